@@ -16,6 +16,7 @@ futures) and is used only to decide state identity, never as an oracle.
 """
 
 import collections
+import itertools
 import json
 import multiprocessing
 import operator
@@ -138,11 +139,94 @@ def model_ret(name, ret):
 
 # ---------------------------------------------------------------- step oracle (C13)
 
+OBSERVERS = tuple(('observe', k) for k in
+                  ('inverted', 'transposed', 'copy', 'take-reversed', 'take-none', 'text', 'bools',
+                   'iterate', 'names'))
+
+
+def observe(real, model, kind, ctr):
+    """Read-only calls as transitions of the search: the model state does not change, the
+    answer must be the model's derivation, the visible triple must stay what it was - and
+    whatever the call leaves behind inside the real object (a cache, a handed-out container)
+    makes it a distinct state that the search expands like any other."""
+    V = []
+
+    def bad(clause, exp, got):
+        V.append({'clause': clause, 'expected': common.jsonable(exp), 'observed': common.jsonable(got)})
+
+    before = visible(real)
+    ctr['transitions'] += 1
+    ctr['observations'] += 1
+    try:
+        if kind == 'inverted':
+            got, exp = visible(real.inverted()), tm.triple(tm.inverted(model))
+            got2 = visible(~real)
+        elif kind == 'transposed':
+            got, exp = visible(real.transposed()), tm.triple(tm.transposed(model))
+            got2 = visible(-real)
+        elif kind == 'copy':
+            c = real.copy()
+            got, exp = visible(c), tm.triple(model)
+            got2 = got
+            if model[0] and model[1]:       # the copy is the caller's to edit
+                c[c.objects[0], c.properties[0]] = (model[0][0], model[1][0]) not in model[2]
+                c.move_object(c.objects[0], len(c.objects) - 1)
+        elif kind == 'take-reversed':
+            o, p = [L(x) for x in reversed(model[0])], [L(x) for x in reversed(model[1])]
+            got = visible(real.take(o, p, reorder=True))
+            exp = tm.triple(tm.take(model, tuple(reversed(model[0])), tuple(reversed(model[1])), True))
+            got2 = visible(real.take(tuple(o), tuple(p)))
+            if got2 == tm.triple(model):
+                got2 = got
+        elif kind == 'take-none':
+            got, exp = visible(real.take()), tm.triple(model)
+            got2 = visible(real.take(None, [L(x) for x in model[1]]))
+        elif kind == 'text':
+            def text():
+                return (real.tostring(), str(real), repr(real), real.crc32(), tuple(real.shape),
+                        real.fill_ratio if model[0] and model[1] else None)
+            got = text()
+            exp = got2 = text()
+        elif kind == 'bools':
+            handed = real.bools
+            got = [tuple(bool(b) for b in r) for r in handed]
+            exp = got2 = tm.triple(model)[2]
+            if isinstance(handed, list):      # the returned table is the caller's to change
+                handed.reverse()
+                handed.append(('junk',))
+        elif kind == 'iterate':
+            got = tuple(real)
+            got = (tuple(map(str.__str__, got[0])), tuple(map(str.__str__, got[1])),
+                   [tuple(bool(b) for b in r) for r in got[2]])
+            exp = got2 = tm.triple(model)
+        else:
+            ho, hp = real.objects, real.properties
+            got = (tuple(map(str.__str__, ho)), tuple(map(str.__str__, hp)))
+            exp = got2 = tm.triple(model)[:2]
+            for h in (ho, hp):
+                if isinstance(h, list):
+                    h.reverse()
+                    h.append(L('junk'))
+        if got != exp or got2 != exp:
+            bad(f'observe-{kind}', exp, got if got != exp else got2)
+    except Exception as e:
+        bad(f'observe-{kind}', 'an answer', f'{type(e).__name__}: {e}')
+    try:
+        after = visible(real)
+        if after != before:
+            bad('read-only-call-leaves-unchanged', before, after)
+    except Exception as e:
+        bad('triple-readable', 'objects/properties/bools readable', f'{type(e).__name__}: {e}')
+    return V, model
+
+
 def step(real, model, op, universe, ctr):
     """Apply op to both sides and compare.  Returns (violations, new_model or None).
     ``real`` is mutated in place (callers pass a fresh copy)."""
     import concepts
     onames, pnames = universe
+    if op[0] == 'observe':
+        return observe(real, model, op[1], ctr)
     try:
         before = visible(real)
     except Exception as e:
@@ -236,7 +320,8 @@ def _expand(chunk):
     succ = {}
     viols = []
     for blob, model, key in chunk:
-        for op in tm.alphabet(model, universe[0], universe[1], pool):
+        for op in itertools.chain(OBSERVERS if _CFG.get('observers', True) else (),
+                                  tm.alphabet(model, universe[0], universe[1], pool)):
             real = pickle.loads(blob)
             V, new_model = step(real, model, op, universe, ctr)
             if new_model is None and not V:
@@ -254,7 +339,7 @@ def _expand(chunk):
     return dict(ctr), succ, viols
 
 
-def bfs(universe, pool, ranks, prop, max_states=400000, budget_s=None):
+def bfs(universe, pool, ranks, prop, max_states=400000, budget_s=None, serial=False):
     """Run the search to a fixpoint.  Returns dict(states, transitions, levels,
     violations (with histories), counters, exhaustive, parents)."""
     t0 = time.time()
@@ -271,21 +356,27 @@ def bfs(universe, pool, ranks, prop, max_states=400000, budget_s=None):
     exhaustive = True
     ctx = multiprocessing.get_context('fork')
     nproc = common.NPROC
-    with ctx.Pool(nproc) as pool_:
+    import contextlib
+    with (contextlib.nullcontext() if serial else ctx.Pool(nproc)) as pool_:
         while frontier:
             levels += 1
             size = max(1, min(64, len(frontier) // (nproc * 4) or 1))
             chunks = [frontier[i:i + size] for i in range(0, len(frontier), size)]
             nxt = []
-            it = pool_.imap_unordered(_expand, chunks)
+            # serial: one process, fixed order - the deterministic schedule used to replay a
+            # violation that depends on process-global state of the library
+            it = iter(map(_expand, chunks)) if serial else pool_.imap_unordered(_expand, chunks)
             while True:
                 try:
-                    c, succ, vs = it.next(timeout=common.STALL_S)
+                    c, succ, vs = next(it) if serial else it.next(timeout=common.STALL_S)
                 except StopIteration:
                     break
                 except multiprocessing.TimeoutError:
                     pool_.terminate()
                     raise common.HarnessError('BFS worker lost (no chunk finished in time)')
+                if serial and vs:
+                    viols.extend(vs)
+                    break
                 ctr.update(c)
                 for v in vs:
                     viols.append(v)
